@@ -26,7 +26,7 @@ def expected(ver, a, group):
 def check(ctx, ver, pfx, a, s):
     V = VOCAB[ver]
     rp = {"ver": ver, "s": s, "assignment": a, "prefix": pfx}
-    o, e = obs.construct(ver, s)
+    o, e = obs.construct(ver, s, warm=True)
     if o is None:
         ctx.violation("v%s:valid-vector-rejected" % ver, "accepted vector rejected", s, "accepted", e, replay=rp)
         return
@@ -43,7 +43,7 @@ def check(ctx, ver, pfx, a, s):
                       s, expected(ver, a, "environmental"), evv, replay=rp)
     base = "/".join("%s:%s" % (m, a[m]) for m in V["mandatory"])
     re_s = pfx + base + "/" + tv + "/" + evv
-    o2, e2 = obs.construct(ver, re_s)
+    o2, e2 = obs.construct(ver, re_s, warm=True)
     if o2 is None:
         ctx.violation("v%s:reassembled-vector-rejected" % ver, "base metrics + both sub-vectors is rejected", s, "accepted", [re_s, e2], replay=rp)
         return
